@@ -25,6 +25,7 @@ func Run(o *drv.Out) {
 	CorpusHighQcOneHash(o, "results")
 	CorpusLockFromOtherPhase(o, "propose")
 	CorpusLockFromOtherPhase(o, "election-vote")
+	CorpusProposalWithoutJustification(o)
 	CorpusLeaderLockDowngraded(o)
 	CorpusLeaderCertFromEarlierRoot(o)
 	CorpusCommitteeChange(o, "lock-carried-over")
